@@ -283,8 +283,9 @@ class DataflowAnalysisAttacher(Transformer):
             # are potentially defined and which are definitely only used by
             # this call
             defines, uses = OrderedSet(), OrderedSet()
-            outvals = [val for arg, val in o.arg_iter() if str(arg.type.intent).lower() in ('inout', 'out')]
-            invals = [val for arg, val in o.arg_iter() if str(arg.type.intent).lower() in ('inout', 'in')]
+            # Dummy arguments without declared intent are potentially read and written
+            outvals = [val for arg, val in o.arg_iter() if str(arg.type.intent).lower() in ('inout', 'out', 'none')]
+            invals = [val for arg, val in o.arg_iter() if str(arg.type.intent).lower() in ('inout', 'in', 'none')]
 
             arrays = [v for v in FindVariables().visit(outvals) if isinstance(v, Array)]
             dims = OrderedSet(v for a in arrays for v in self._symbols_from_expr(a.dimensions))
